@@ -160,4 +160,54 @@ theorem namedAttr_none_cycle (s : Schema) (an : String) (fuel : Nat) (en : Strin
   subst he
   exact ⟨y, isPath_reach _ en y hp (by simp), isPath_reach l2 y y (isPath_suffix l1 en y l2 hp) hy⟩
 
+/-! ### `ENTITYfind_inherited_entity( e, name, 0 )` (the qualifier of `SELF\name.attr`) against paths of supertype edges -/
+
+theorem isAncestor_iff_path (s : Schema) (name : String) : ∀ (fuel : Nat) (en : String),
+    isAncestor s name fuel en = true ↔
+      ∃ l, l ≠ [] ∧ l.length ≤ fuel ∧ IsPath (superGraph s) en l ∧ l.getLast? = some name
+  | 0, en => by
+    simp only [isAncestor, Bool.false_eq_true, false_iff]
+    rintro ⟨l, hne, hl, _, _⟩
+    cases l with
+    | nil => exact hne rfl
+    | cons a as => simp at hl
+  | fuel + 1, en => by
+    simp only [isAncestor]
+    cases hf : findEntity s en with
+    | none =>
+      simp only [Bool.false_eq_true, false_iff]
+      rintro ⟨l, hne, _, hp, _⟩
+      cases l with
+      | nil => exact hne rfl
+      | cons a as => simp [IsPath, superGraph, hf] at hp
+    | some e =>
+      simp only [List.any_eq_true, Bool.or_eq_true, decide_eq_true_eq]
+      constructor
+      · rintro ⟨sup, hs, h | h⟩
+        · subst h
+          exact ⟨[sup], by simp, by simp, by simp [IsPath, superGraph, hf, hs], rfl⟩
+        · obtain ⟨l, hne, hl, hp, hlast⟩ := (isAncestor_iff_path s name fuel sup).mp h
+          refine ⟨sup :: l, by simp, by simp; omega, by simp [IsPath, superGraph, hf, hs, hp], ?_⟩
+          cases l with
+          | nil => exact absurd rfl hne
+          | cons a as => simpa [List.getLast?_cons_cons] using hlast
+      · rintro ⟨l, hne, hl, hp, hlast⟩
+        cases l with
+        | nil => exact absurd rfl hne
+        | cons b rest =>
+          have hb : b ∈ supersOf s e := by simpa [IsPath, superGraph, hf] using hp.1
+          refine ⟨b, hb, ?_⟩
+          cases rest with
+          | nil => left; simpa using hlast
+          | cons c cs =>
+            right
+            apply (isAncestor_iff_path s name fuel b).mpr
+            exact ⟨c :: cs, by simp, by simp at hl ⊢; omega, hp.2, by simpa [List.getLast?_cons_cons] using hlast⟩
+
+/-- what the qualifier look-up finds is a proper ancestor -/
+theorem isAncestor_sound (s : Schema) (name : String) (fuel : Nat) (en : String) (h : isAncestor s name fuel en = true) :
+    Reach (superGraph s) en name := by
+  obtain ⟨l, hne, _, hp, hlast⟩ := (isAncestor_iff_path s name fuel en).mp h
+  exact isPath_reach l en name hp (List.mem_of_getLast? hlast)
+
 end StepModel.Express.Resolve
